@@ -18,17 +18,17 @@ def _e(text):
 
 
 CLAIMS = {
-    'C01': _o('Deductive: immutable_filter, TypeBlocks.append/extend (Frozen invariant) proved; G1/G2 site obligations generated for every array-field write, raw TypeBlocks constructor call, frozen-return contract and in-place ndarray write in 13 core modules and discharged by a flow-sensitive type-state pass (some sites undecided: listed). "Every public method" is covered by a bounded snapshot stand-in.'),
+    'C01': _o('Deductive: immutable_filter, TypeBlocks.append/extend/from_blocks (Frozen invariant) proved; G3 ownership obligations (an array or TypeBlocks handed over with own_*=True is not the caller\'s live object) generated at every such call site and discharged by path enumeration; G1/G2 site obligations generated for every array-field write, raw TypeBlocks constructor call, frozen-return contract and in-place ndarray write in 13 core modules and discharged by a flow-sensitive type-state pass (some sites undecided: listed). "Every public method" is covered by a bounded snapshot stand-in.'),
     'C02': _e('Bounded stand-in: index bijection contract over 12 label families x construction/derivation routes x grow-only histories (flat, datetime, auto-integer, hierarchical). slice_to_inclusive_slice (label-slice stop inclusion) is proved deductively.'),
-    'C03': _p('Deductive: contracts on the real key->block-slice translation (TypeBlocks._cols_to_slice, _indices_to_contiguous_pairs with loop invariant and yield contract, util.slice_to_ascending_slice, TypeBlocks.append directory invariant) are discharged for all inputs and all iterations. Layout transparency of whole operations is covered by a bounded stand-in (all block layouts of <=4 columns x 49 operations), reported as bounded.'),
+    'C03': _p('Deductive: contracts on the real key->block-slice translation (TypeBlocks._cols_to_slice, _indices_to_contiguous_pairs with loop invariant and yield contract, util.slice_to_ascending_slice, TypeBlocks.append / from_blocks directory invariant, the column-cursor discipline of the block-wise generators _astype_blocks / _mask_blocks / _ufunc_blocks / _drop_blocks) are discharged for all inputs and all iterations. Layout transparency of whole operations is covered by a bounded stand-in (all block layouts of <=4 columns x 59 operations, all layout pairs for binary operators), reported as bounded.'),
     'C05': _e('Bounded stand-in: list-of-tuples reference for ragged trees depth 2-4, 16 construction routes, grow-only histories, every per-level selector combination.'),
     'C06': _e('Bounded stand-in: set algebra of indices and dict-reference label alignment of binary operators / reindex over all small label-set relations and block layouts.'),
-    'C07': _p('Deductive: util.resolve_dtype proved against the decision table taken from the property (strings, Booleans, dates and numbers never resolve into one another; object absorbs; same-class pairs defer to np.result_type, assumed). Cell-level preservation across every merging operation is covered by a bounded stand-in.'),
-    'C08': _p('Deductive: slice_to_ascending_slice and key_to_ascending_key proved (result is ascending and addresses exactly the positions of the user key, for every slice incl. negative start/stop/step, all sizes); get_block_match yield contract proved (draws exactly `width` leading columns from the stack, remainder pushed back, rest untouched). G2 write-only-to-fresh sites cover "leaves the original as it was". Whole update interfaces are covered by a bounded reference-model stand-in.'),
-    'C09': _p('Deductive: TypeBlocks.append / extend, FrameGO.__setitem__ and FrameGO.extend proved append-only, all-or-nothing (raise => state == old(state)) and lock-step (labels and data widths equal) for all inputs, relative to assumed IndexGO contracts. Histories and non-sharing are covered by a bounded stand-in.'),
+    'C07': _p('Deductive: util.resolve_dtype proved against the decision table taken from the property (strings, Booleans, dates and numbers never resolve into one another; object absorbs; same-class pairs defer to np.result_type, assumed); concat_resolved and full_for_fill proved to allocate with the resolved dtype; TypeBlocks.append / from_blocks keep the row dtype able to hold every block (RowDtypeHolds). Cell-level preservation across every merging operation is covered by a bounded stand-in.'),
+    'C08': _p('Deductive: slice_to_ascending_slice and key_to_ascending_key proved (result is ascending and addresses exactly the positions of the user key, for every slice incl. negative start/stop/step, all sizes); get_block_match yield contract proved (draws exactly `width` leading columns from the stack, remainder pushed back, rest untouched); the block-wise generators _astype_blocks / _mask_blocks / _ufunc_blocks / _drop_blocks proved to advance their column cursor by exactly the block width and to split a block only at the addressed columns. G2 write-only-to-fresh sites and G3 ownership sites cover "leaves the original as it was". Whole update interfaces are covered by a bounded reference-model stand-in.'),
+    'C09': _p('Deductive: TypeBlocks.append / extend, FrameGO.__setitem__ and FrameGO.extend proved append-only, all-or-nothing (raise => state == old(state)) and lock-step (labels and data widths equal) for all inputs, relative to assumed IndexGO contracts; G3 ownership obligations cover non-sharing at every own_*=True hand-over. Histories and non-sharing are also covered by a bounded stand-in.'),
     'C10': _p('Deductive: TypeBlocks.equals proved equal to the content-equivalence predicate of the property over ghost cell contents (cell-wise ==, both-missing only under skipna, dtype option), for all shapes and block structures; symmetry follows from the predicate. Container-level equals / HE hash contract are covered by a bounded stand-in.'),
-    'C11': _e('Bounded stand-in: dict-of-cells reference for from_concat / from_concat_items / from_overlay on Series and Frames (0..3 inputs, both axes, union/intersection, all layouts).'),
-    'C12': _e('Bounded stand-in: sorted() reference (stable, multi-key, hierarchical, descending = exact reverse) over all orders of small label/value sets and all layouts.'),
+    'C11': _e('Deductive side result: util.concat_resolved (resolved dtype, shape arithmetic, frozen result) proved. The property itself is decided by a bounded stand-in: dict-of-cells reference for from_concat / from_concat_items / from_overlay on Series and Frames (0..3 inputs, both axes, union/intersection, all layouts).'),
+    'C12': _e('Deductive side result: sort_index_for_order routing proved (depth 0 is the last lexsort key, kind forwarded, descending = exact reverse) relative to assumed NumPy sort contracts; sort-kind constants checked on the AST. The property itself is decided by a bounded stand-in: sorted() reference (stable, multi-key, hierarchical, descending = exact reverse) over all orders of small label/value sets and all layouts.'),
     'C14': _p('Deductive: util.slices_from_targets yield contract proved (each yielded run is non-empty, inside the axis, adjacent to its own anchor, at most `limit` long, never covers a non-missing anchor position, carries that anchor\'s value) for all inputs. Per-cell behaviour of isna/dropna/fillna*/count is covered by an exhaustive bounded stand-in (every missing pattern up to 3x3 / 2x4, all layouts).'),
     'C16': _e('Bounded stand-in only (CSV/TSV text semantics are outside the verifier): inverse-pair contract for delimited / pairs / records / pickle round trips.'),
     'C17': _p('Deductive: Bus._store_reader yield contract proved (frames yielded in label order, each read with that label\'s config, for every max_persist batching) relative to assumed Store contracts. Laziness, LRU bound/order, store faithfulness and stale-file detection are covered by a bounded history stand-in.'),
@@ -36,8 +36,8 @@ CLAIMS = {
     'C19': _e('Bounded stand-in: Quilt vs concatenated Frame, Batch vs per-Frame application.'),
 }
 CLAIMS.update({
-    'C04': _p('Deductive: the key->position arithmetic that selection rests on is proved for all inputs: slice_to_inclusive_slice (label slices include their stop), TypeBlocks._cols_to_slice and _indices_to_contiguous_pairs (a key expands to exactly its positions, in key order, tiled over the blocks). Whole selections (iloc/loc/getitem/bloc on flat, auto-integer, datetime and hierarchical axes) are covered by a bounded reference-model stand-in.'),
-    'C13': _e('Bounded stand-in: partition contract for iter_group* (every key vector over small alphabets, 13 key kinds, both axes, label depths, both grouping paths) and reference enumeration of windows for all size/step/shift/label_shift/size_increment in a small box.'),
+    'C04': _p('Deductive: the key->position arithmetic that selection rests on is proved for all inputs: slice_to_inclusive_slice (label slices include their stop), LocMap.map_slice_args (label slice bounds: stop inclusive, absent end point raises), TypeBlocks._cols_to_slice and _indices_to_contiguous_pairs (a key expands to exactly its positions, in key order, tiled over the blocks). Whole selections (iloc/loc/getitem/bloc on flat, auto-integer, datetime and hierarchical axes) are covered by a bounded reference-model stand-in.'),
+    'C13': _e('Deductive side result: util.axis_window_items yield contract proved (window k covers exactly [k*step, k*step+size) clipped as specified, labelled by the position label_shift prescribes, for all size/step/shift/increment). Grouping is decided by a bounded stand-in only: partition contract for iter_group* (every key vector over small alphabets, 13 key kinds, both axes, label depths, both grouping paths) and reference enumeration of windows for all size/step/shift/label_shift/size_increment in a small box.'),
     'C15': _e('Bounded stand-in: frame.f(axis, skipna) against the per-column / per-row NumPy computation for 18 reduction variants x 12 column kinds x all layouts; many defects of this version are recorded as known findings.'),
     'C20': _e('Bounded stand-in: dict-of-rows relational reference for pivot / stack-unstack / joins / set_index / relabel_shift round trips.'),
 })
